@@ -3,7 +3,7 @@ CONSTANTS
   NL = 4
   NW = 2
   NT = 3
-  ECodes = {0, 103, 1501, 1515, 502}
+  ECodes = {0, 103, 1501, 1515}
   TCodes = {1111,1233,3211,2131,1323,3321}
   QuadIds = {2, 4}
   ClampE = 15
@@ -17,17 +17,8 @@ CONSTANTS
   Dist = 3
   KD = 2
   Export = TRUE
-INVARIANT TelescopingPartial
 INVARIANT Telescoping
-INVARIANT CoefNonNeg
-INVARIANT OwnTemperaturesOnly
-INVARIANT IsothermalIdentity
 INVARIANT HotColdBounds
-INVARIANT FluxIdentityIffWeights
-INVARIANT FluxBounds
-INVARIANT EclipseIsothermalRatio
-INVARIANT EclipseBounds
-INVARIANT DirectProportional
 INVARIANT FitsInv
 CONSTRAINT Emit
 CHECK_DEADLOCK FALSE
